@@ -280,6 +280,110 @@ def a_neq_later_mutation(xs, ys):
 def b_neq_later_mutation(xs, ys):
     return [x for x in xs]
 
+def a_search_loop(xs, enc):
+    for x in xs:
+        v = enc(x)
+        if v is not None:
+            return v
+    return None
+def b_search_loop(xs, enc):
+    for x in xs:
+        if (v := enc(x)) is not None:
+            break
+    else:
+        v = None
+    return v
+
+def a_comp_display(p, q, f):
+    return [f(p), f(q)]
+def b_comp_display(p, q, f):
+    return [f(x) for x in (p, q)]
+
+def a_star_display(p, q, f):
+    return f(p, q)
+def b_star_display(p, q, f):
+    both = [p, q]
+    return f(*both)
+
+def a_map_display(p, q):
+    a, b = _double(p), _double(q)
+    return a - b
+def b_map_display(p, q):
+    a, b = map(_double, (p, q))
+    return a - b
+
+def a_dict_values(p, q):
+    return p < 0 or q < 0
+def b_dict_values(p, q):
+    named = {"p": p, "q": q}
+    return any(v < 0 for v in named.values())
+
+def a_dict_setitem(p, q, f):
+    return f(a=p, b=q, c=1)
+def b_dict_setitem(p, q, f):
+    kw = {"a": p}
+    kw["b"] = q
+    kw.update(c=1)
+    return f(**kw)
+
+def a_empty_appends(c, p, q, f):
+    return f([p, q] if c else [q])
+def b_empty_appends(c, p, q, f):
+    parts = []
+    if c:
+        parts.append(p)
+    parts.append(q)
+    return f(parts)
+
+def a_extend_comp(xs, f):
+    return [f(x) for x in xs]
+def b_extend_comp(xs, f):
+    out = []
+    out.extend(f(x) for x in xs)
+    return out
+
+def a_multi_fill(xs, ys, f):
+    return [f(x) for x in xs] + [y for y in ys if y] + [0]
+def b_multi_fill(xs, ys, f):
+    out = []
+    for x in xs:
+        out.append(f(x))
+    out.extend(y for y in ys if y)
+    out.append(0)
+    return out
+
+def a_local_gen(xs, n):
+    for x in xs:
+        if x > n:
+            break
+        yield x + n
+def b_local_gen(xs, n):
+    def shifted():
+        for x in xs:
+            yield x, x + n
+    import itertools
+    for x, y in itertools.takewhile(lambda pair: not pair[0] > n, shifted()):
+        yield y
+
+def a_zip_display(p, f, u, v):
+    return (f(u, p[0]), f(v, p[1]))
+def b_zip_display(p, f, u, v):
+    return tuple(f(k, c) for k, c in zip((u, v), p))
+
+def a_neq_search_default(xs, enc):
+    for x in xs:
+        v = enc(x)
+        if v is not None:
+            return v
+    return None
+def b_neq_search_default(xs, enc):
+    for x in xs:
+        if (v := enc(x)) is not None:
+            break
+    else:
+        v = 0
+    return v
+
 def a_neq_order(p, q):
     return [p, q]
 def b_neq_order(p, q):
@@ -288,8 +392,10 @@ def b_neq_order(p, q):
 
 EQUAL = ["helper", "raise_in_helper", "ite", "single_exit", "loop_append", "dict_fill", "map", "filter", "local_def", "record",
          "partial", "format", "match", "augadd", "display_append", "dict_update", "slice", "gen_helper", "takewhile", "table",
-         "record_methods", "any_display", "yield_chain", "unroll", "or_none", "demorgan", "map_fused", "cond_list"]
-DIFFERENT = ["neq_filter", "neq_later_mutation", "neq_order"]
+         "record_methods", "any_display", "yield_chain", "unroll", "or_none", "demorgan", "map_fused", "cond_list",
+         "search_loop", "comp_display", "star_display", "map_display", "dict_values", "dict_setitem", "empty_appends", "extend_comp",
+         "multi_fill", "local_gen", "zip_display"]
+DIFFERENT = ["neq_filter", "neq_later_mutation", "neq_order", "neq_search_default"]
 
 
 def _alpha(t, mp):
